@@ -129,6 +129,18 @@ structure RpcDesc where
 /-- number of `[placeholders]` in a cobra `Use` string -/
 def usePlaceholders (use : String) : Nat := (use.toList.filter (· == '[')).length
 
+/-- the `[placeholder]` names of a `Use` string in order, as character lists written like
+    proto field names (`[auction-id]` ↦ `auction_id`); structural recursion over the characters
+    so that the kernel can evaluate it -/
+def placeholderChars : List Char → Option (List Char) → List (List Char)
+  | [], _ => []
+  | c :: cs, none => if c == '[' then placeholderChars cs (some []) else placeholderChars cs none
+  | c :: cs, some acc =>
+    if c == ']' then acc.reverse :: placeholderChars cs none
+    else placeholderChars cs (some ((if c == '-' then '_' else c) :: acc))
+
+def usePlaceholderNames (use : String) : List (List Char) := placeholderChars use.toList none
+
 def lastOnly (flags : List Bool) : Bool :=
   match flags.reverse with
   | [] => true
@@ -141,7 +153,9 @@ def CliCmd.args (c : CliCmd) : List (String × Bool) := c.positional.zip c.varar
     message, placeholders match, varargs/optional only in last position and not both; a
     `repeated` field is bound positionally only as varargs (autocli gives a positional
     non-varargs argument exactly ONE value, so any other number of elements could not be
-    sent; unbound repeated fields become repeatable flags) -/
+    sent; unbound repeated fields become repeatable flags); and the placeholder names of the
+    usage line, in order, are the bound fields (`[auction-id] [bid-id]` bound to `bid_id`,
+    `auction_id` would send the two ids swapped) -/
 def CliCmd.resolves (c : CliCmd) (rpcs : List RpcDesc) : Bool :=
   match rpcs.find? (fun r => r.service == c.service && r.rpc == c.rpc) with
   | none => false
@@ -153,6 +167,8 @@ def CliCmd.resolves (c : CliCmd) (rpcs : List RpcDesc) : Bool :=
      && lastOnly c.varargs && lastOnly c.optional
      && !((c.varargs.getLast?.getD false) && (c.optional.getLast?.getD false))
      && c.positional.eraseDups.length == c.positional.length
-     && c.args.all (fun a => a.2 || !r.repeated.contains a.1))
+     && c.args.all (fun a => a.2 || !r.repeated.contains a.1)
+     -- what the usage line tells the user to type, in order, is what each argument is bound to
+     && usePlaceholderNames c.use == c.positional.map String.toList)
 
 end Fundraising.Tables
